@@ -118,7 +118,7 @@ func c05r1(c *Ctx, id string) {
 			}
 		}
 	}
-	c.Floor(id, 9)
+	c.Floor(id, 3)
 }
 
 func c05r2(c *Ctx, id string) {
